@@ -121,7 +121,12 @@ TSearch ==
             ELSE Emit([prop |-> "C31", at |-> l, kind |-> "not-the-k-nearest", got_squared |-> gotS, want_squared |-> wantS, vectors |-> Cardinality(everVec),
                        m |-> m, only_nodes_resurrected_by_compaction |-> (dead # {} /\ notStored = {} /\ \A i \in dead : hits[i][1] \in delc), q |-> q, k |-> k]))
         /\ (IF key \notin DOMAIN last \/ last[key] = hits THEN TRUE
-            ELSE Emit([prop |-> "C31", at |-> l, kind |-> "result-changed-without-a-write", before |-> last[key], now |-> hits, q |-> q, k |-> k]))
+            ELSE LET nowLive == SelectSeq(hits, LAMBDA h : h[1] \notin delc)
+                     (* the only change: deleted nodes that a compaction made visible again (KF-01) entered the answer *)
+                     resurrected == Len(nowLive) < Len(hits) /\ Len(nowLive) <= Len(last[key])
+                                    /\ nowLive = SubSeq(last[key], 1, Len(nowLive))
+                 IN Emit([prop |-> "C31", at |-> l, kind |-> "result-changed-without-a-write", before |-> last[key], now |-> hits,
+                          only_nodes_resurrected_by_compaction |-> resurrected, q |-> q, k |-> k]))
         /\ last' = (key :> hits) @@ last
   /\ UNCHANGED <<m, live, vec, ghost, everVec, delc>>
   /\ l' = l + 1
